@@ -319,6 +319,15 @@ func vSymbolicSessionRules(seid uint64, mode int) PacketForwardingRules {
 		return qer{qerID: id, qosLevel: lvl, qfi: vU8(tag+"_qfi") & 0x3f, ulStatus: vU8(tag+"_ulgate") & 1, dlStatus: vU8(tag+"_dlgate") & 1,
 			ulMbr: rate(tag + "_ulmbr"), dlMbr: rate(tag + "_dlmbr"), ulGbr: vU64(tag+"_ulgbr") & 0xffffffffff, dlGbr: vU64(tag+"_dlgbr") & 0xffffffffff, fseID: seid}
 	}
+	// the symbolic PDR also carries an arbitrary 16-bit rule id (distinct from the other PDR's)
+	if mode&1 != 0 {
+		up.pdrID = uint32(vU16("pdr_id_ul"))
+		vAssume(up.pdrID != 0 && up.pdrID != dn.pdrID)
+	}
+	if mode&2 != 0 {
+		dn.pdrID = uint32(vU16("pdr_id_dl"))
+		vAssume(dn.pdrID != 0 && dn.pdrID != up.pdrID)
+	}
 	var r PacketForwardingRules
 	r.pdrs = []pdr{up, dn}
 	r.fars = []far{fu, fd}
@@ -398,6 +407,13 @@ func H_C16_session() {
 		vValidate(env.srv.info, u, "delete")
 	}
 	vAccAssert()
+	// what went back into the identifier pools is valid for the next session
+	for k := range env.up4.counters {
+		for _, x := range env.up4.counters[k].counterIDsPool.ToSlice() {
+			id, isID := x.(uint64)
+			vAssert("after-delete:counter-pool-inside-array", isID && id < 8)
+		}
+	}
 	vCover("deleted")
 }
 
